@@ -254,6 +254,33 @@ func pinnedCases() []pinned {
 		req2.Fields = append(req2.Fields, &schema.Field{Name: "text", Number: 2, Kind: schema.KString, Card: schema.Singular, Oneof: "content"})
 		out = append(out, pinned{File: "C13/ts_discriminator_not_identifier.json", Doc: &c13Case{Property: "C13", Kind: "ts", Schema: s2}})
 	}
+	{
+		s, _, _, m, svc := baseSchema("p0044")
+		svc.Headers = []*schema.Header{{Name: "X-API-Key", Type: "string", Required: true}}
+		m.Headers = []*schema.Header{{Name: "x-api-key", Type: "string", Required: true, Format: "uuid"}}
+		out = append(out, pinned{File: "C18/header_case_variant_declared_twice.json", Doc: &c18Case{Property: "C18", Schema: s}})
+	}
+	// ---- C19 ----
+	rules := func(id string, fields ...*schema.Field) *schema.Schema {
+		pkg := id + ".rules.v1"
+		req := &schema.Message{Name: "CheckRequest", Fields: fields}
+		resp := &schema.Message{Name: "CheckResponse", Fields: []*schema.Field{fld("ok", 1, schema.KBool, schema.Singular)}}
+		return &schema.Schema{ID: id, Pkg: pkg, GoPkg: id + "rules", GoPath: "verif.test/gen/" + id, Profile: "pinned",
+			Files: []*schema.File{{Name: id + "/rules.proto", Generate: true, Messages: []*schema.Message{req, resp},
+				Services: []*schema.Service{{Name: "RuleService", Methods: []*schema.Method{{Name: "Check", Input: pkg + ".CheckRequest", Output: pkg + ".CheckResponse", HasConfig: true, Path: "/check", Verb: 2}}}}}}}
+	}
+	sp := func(v string) *string { return &v }
+	up := func(v uint64) *uint64 { return &v }
+	c19 := func(file string, s *schema.Schema) {
+		out = append(out, pinned{File: file, Doc: &c19Case{Property: "C19", Schema: s}})
+	}
+	c19("C19/exclusive_bounds_rendered_false.json", rules("p0050", &schema.Field{Name: "f0_count", Number: 1, Kind: schema.KInt32, Card: schema.Singular, Rules: &schema.Rules{Gt: sp("0"), Lt: sp("10")}}))
+	c19("C19/rules_dropped_for_uint32.json", rules("p0051", &schema.Field{Name: "f0_count", Number: 1, Kind: schema.KUint32, Card: schema.Singular, Rules: &schema.Rules{Gte: sp("5"), Lte: sp("10")}}))
+	c19("C19/untagged_yaml_scalar_const.json", rules("p0052", &schema.Field{Name: "f0_label", Number: 1, Kind: schema.KString, Card: schema.Singular, Rules: &schema.Rules{StrConst: sp("123")}}))
+	c19("C19/zero_upper_bound_dropped.json", rules("p0053", &schema.Field{Name: "f0_label", Number: 1, Kind: schema.KString, Card: schema.Singular, Rules: &schema.Rules{MaxLen: up(0)}}))
+	c19("C19/numeric_bounds_on_string_typed_int64.json", rules("p0054", &schema.Field{Name: "f0_count", Number: 1, Kind: schema.KInt64, Card: schema.Singular, Rules: &schema.Rules{Gte: sp("5")}}))
+	c19("C19/bounds_beyond_2_53_rounded.json", rules("p0055", &schema.Field{Name: "f0_count", Number: 1, Kind: schema.KInt64, Card: schema.Singular, Ann: &schema.Ann{Int64Encoding: 2}, Rules: &schema.Rules{Gte: sp("9007199254740993")}}))
+	c19("C19/address_published_as_ip.json", rules("p0056", &schema.Field{Name: "f0_label", Number: 1, Kind: schema.KString, Card: schema.Singular, Rules: &schema.Rules{WellKnown: "address"}}))
 	// ---- C20 open ----
 	{
 		s, _, resp, _, _ := baseSchema("p0013")
